@@ -124,6 +124,11 @@ func c17Alphabet(dotu bool) []mop {
 			a = append(a, none(mop{Kind: "link", Dir: dir, Name: "hl", Target: "a", Perm: go9p.DMLINK | 0644}), none(mop{Kind: "link", Dir: dir, Name: "b", Target: "a", Perm: go9p.DMLINK | 0644}))
 		}
 	}
+	if dotu {
+		// symbolic links the host refuses to make: an empty target, under a free name and under
+		// the name of an existing directory
+		a = append(a, none(mop{Kind: "symlink", Dir: "", Name: "es", Ext: "", Perm: go9p.DMSYMLINK | 0777}), none(mop{Kind: "symlink", Dir: "", Name: "d", Ext: "", Perm: go9p.DMSYMLINK | 0777}))
+	}
 	// through a symbolic link to a directory and back up
 	a = append(a, none(mop{Kind: "create", Dir: "ld/..", Name: "n", Perm: 0644, Mode: 1}), none(mop{Kind: "mkdir", Dir: "ld/..", Name: "nd", Perm: go9p.DMDIR | 0750}))
 	if dotu {
@@ -344,7 +349,14 @@ func (o mop) run9p(cl *Cli, dotu bool, tag *uint16) (reply *wire.Msg, follow str
 		if o.Kind != "create" {
 			mode = 0
 		}
+		before := cl.Rpc(&wire.Msg{Type: wire.Tstat, Tag: nt(), Fid: 1})
 		r = cl.Rpc(&wire.Msg{Type: wire.Tcreate, Tag: nt(), Fid: 1, Name: o.Name, Perm: o.Perm, Mode: mode, Ext: ext})
+		if r != nil && r.Type == wire.Rerror && before != nil && before.Type == wire.Rstat {
+			// a create that is refused leaves the fid where it was: on the directory
+			if st := cl.Rpc(&wire.Msg{Type: wire.Tstat, Tag: nt(), Fid: 1}); st == nil || st.Type != wire.Rstat || st.Stat.Qid != before.Stat.Qid || st.Stat.Name != before.Stat.Name {
+				follow = fmt.Sprintf("after the refused create of %q (%s) the fid of the directory %q answers Tstat with %v", o.Name, r.Ename, before.Stat.Name, st)
+			}
+		}
 		if r != nil && r.Type == wire.Rcreate {
 			if st := cl.Rpc(&wire.Msg{Type: wire.Tstat, Tag: nt(), Fid: 1}); st == nil || st.Type != wire.Rstat || st.Stat.Name != o.Name {
 				follow = fmt.Sprintf("after a successful create of %q the fid answers Tstat with %v", o.Name, st)
